@@ -172,6 +172,35 @@ pub fn gen_jitter_spec(rng: &mut Prng, prop: &str, allowed: &[CF], c16_bias: boo
             }
         }
     }
+    // now and then the first collection contains three deltas whose second difference is +-2^32 over
+    // the integers: zero in the 32-bit arithmetic of the stuck test, non-zero in any wider arithmetic
+    if spec.variant == "jitter_history" && rng.chance(1, 40) {
+        let r = rng.range(3, 6) as usize;
+        let w = crate::craft::wrapping_second_difference(rng);
+        let mut ds: Vec<i64> = vec![rng.range(500, 90_000) as i64];
+        let at = rng.range(1, (r - 1) as u64) as usize;
+        for k in 1..=r + 4 {
+            if k == at {
+                ds.extend_from_slice(&w);
+            } else {
+                ds.push(rng.range(500, 90_000) as i64 + 7 * k as i64);
+            }
+        }
+        let prefix = crate::craft::crafted_prefix_signed(rng, &ds);
+        let shift = prefix.len() as u32;
+        let last = *prefix.last().unwrap();
+        let first = clock.readings.first().copied().unwrap_or(0);
+        let mut readings = prefix;
+        readings.extend(clock.readings.iter().map(|x| last.wrapping_add(x.wrapping_sub(first)).wrapping_add(173)));
+        clock.readings = readings;
+        for m in marks.iter_mut() {
+            m.0 += shift;
+        }
+        spec.rounds = Some(r as u8);
+        spec.ops.retain(|o| !matches!(o, Op::SetRounds(_)));
+        spec.ops.insert(0, Op::U64);
+        spec.variant = "jitter_history_wrapping_second_difference".into();
+    }
     spec.clock = Some(clock);
     spec.aux = encode_marks(&marks);
     // the process's logging configuration: Trace level enabled in one run out of six
